@@ -9,7 +9,10 @@ import (
 	"fmt"
 	"io"
 	"math/rand"
+	"os"
+	"os/exec"
 	"runtime"
+	"strings"
 	"sync/atomic"
 	"time"
 
@@ -237,6 +240,7 @@ type allocRow struct {
 type allocCase struct {
 	Row    allocRow `json:"row"`
 	Client bool     `json:"client"`
+	API    string   `json:"api"` // reader | read
 }
 
 const allocSlack = 512 << 10 // fixed overhead allowed per receive, independent of declared length / ratio
@@ -282,10 +286,29 @@ func runAllocCase(rep *Report, ac allocCase, rng *rand.Rand) (alloc uint64) {
 	runtime.ReadMemStats(&m0)
 	handed := 0
 	var rerr error
-	_, r, err := c.Reader(ctx)
-	if err != nil {
-		rerr = err
-	} else {
+	panicked := ""
+	func() {
+		defer func() {
+			if r := recover(); r != nil {
+				panicked = fmt.Sprint(r)
+			}
+		}()
+		if ac.API == "read" {
+			_, b, err := c.Read(ctx)
+			handed, rerr = len(b), err
+			if err == nil {
+				rerr = io.EOF
+			}
+			if cap(b) > len(b)+allocSlack {
+				rep.miss("memory-not-bounded-by-delivered-bytes", ac, fmt.Sprintf("Read returned %d bytes in a buffer of capacity %d", len(b), cap(b)))
+			}
+			return
+		}
+		_, r, err := c.Reader(ctx)
+		if err != nil {
+			rerr = err
+			return
+		}
 		for {
 			n, err := r.Read(buf)
 			handed += n
@@ -294,6 +317,10 @@ func runAllocCase(rep *Report, ac allocCase, rng *rand.Rand) (alloc uint64) {
 				break
 			}
 		}
+	}()
+	if panicked != "" {
+		rep.miss("panic", ac, panicked)
+		return
 	}
 	runtime.ReadMemStats(&m1)
 	alloc = m1.TotalAlloc - m0.TotalAlloc
@@ -316,7 +343,57 @@ func runAllocCase(rep *Report, ac allocCase, rng *rand.Rand) (alloc uint64) {
 	return
 }
 
+func runAllocChild(rep *Report, ac allocCase) uint64 {
+	js, _ := json.Marshal(ac)
+	cmd := exec.Command(os.Args[0], "limit-alloc-one", "-case", string(js))
+	var out, errb bytes.Buffer
+	cmd.Stdout, cmd.Stderr = &out, &errb
+	err := cmd.Run()
+	if err != nil {
+		first := errb.String()
+		if i := strings.IndexByte(first, '\n'); i > 0 {
+			first = first[:i]
+		}
+		sig := "memory-not-bounded-by-delivered-bytes"
+		if !strings.Contains(errb.String(), "out of memory") && !strings.Contains(errb.String(), "cannot allocate") {
+			sig = "panic"
+		}
+		rep.miss(sig, ac, "the receive killed its process: "+first)
+		return 0
+	}
+	var child struct {
+		Sigs       map[string]int         `json:"sigs"`
+		Mismatches []Mismatch             `json:"mismatches"`
+		Extra      map[string]interface{} `json:"extra"`
+	}
+	if json.Unmarshal(bytes.TrimSpace(out.Bytes()), &child) != nil {
+		rep.miss("row-unreadable", ac, "child produced no report")
+		return 0
+	}
+	for _, m := range child.Mismatches {
+		rep.miss(m.Sig, ac, m.Detail)
+	}
+	if v, ok := child.Extra["alloc"].(float64); ok {
+		return uint64(v)
+	}
+	return 0
+}
+
 func init() {
+	families["limit-alloc-one"] = func(args []string) error {
+		fs := flag.NewFlagSet("limit-alloc-one", flag.ExitOnError)
+		cs := fs.String("case", "", "allocCase JSON")
+		fs.Parse(args)
+		var ac allocCase
+		if err := json.Unmarshal([]byte(*cs), &ac); err != nil {
+			return err
+		}
+		rep := newReport("limit")
+		a := runAllocCase(rep, ac, rand.New(rand.NewSource(1)))
+		rep.Extra["alloc"] = a
+		rep.print()
+		return nil
+	}
 	families["limit"] = func(args []string) error {
 		fs := flag.NewFlagSet("limit", flag.ExitOnError)
 		rowsPath := fs.String("rows", "", "C08 rows")
@@ -374,7 +451,7 @@ func init() {
 		// allocation clause: sequential, so that TotalAlloc deltas are attributable
 		var maxAlloc uint64
 		if *allocPath != "" {
-			rng := rand.New(rand.NewSource(*seed))
+			_ = rand.Int
 			err = readNDJSON(*allocPath, func(b []byte) error {
 				var row allocRow
 				if err := json.Unmarshal(b, &row); err != nil {
@@ -383,13 +460,20 @@ func init() {
 				rows++
 				distinct[string(b)] = true
 				for _, client := range []bool{false, true} {
-					ac := allocCase{Row: row, Client: client}
-					a := runAllocCase(rep, ac, rng)
-					over := int64(a)
-					if over > int64(maxAlloc) {
-						maxAlloc = uint64(over)
+					for _, api := range []string{"reader", "read"} {
+						if api == "read" && row.Kind == "bomb" && row.Limit < 0 {
+							continue // Conn.Read must buffer what it delivers: an unlimited bomb is delivered, not a finding
+						}
+						ac := allocCase{Row: row, Client: client, API: api}
+						// each case in a child process: an allocation driven by a declared length can exhaust memory,
+						// which is a fatal (unrecoverable) runtime error and must be attributed to the case, not kill the campaign
+						a := runAllocChild(rep, ac)
+						over := int64(a)
+						if over > int64(maxAlloc) {
+							maxAlloc = uint64(over)
+						}
+						evals++
 					}
-					evals++
 				}
 				return nil
 			})
